@@ -35,9 +35,11 @@ import c02_probes as P                                # noqa: E402
 
 TIERS = {
     'quick': dict(modules=6, runs=12, order_progs=12, s2_classes=24,
-                  s2_kernels=2, s2_reps=1, per_job=12),
+                  s2_kernels=2, s2_reps=1, per_job=12, kp_reps=2,
+                  s2_variants=10),
     'thorough': dict(modules=40, runs=24, order_progs=60, s2_classes=None,
-                     s2_kernels=None, s2_reps=2, per_job=14),
+                     s2_kernels=None, s2_reps=2, per_job=14, kp_reps=6,
+                     s2_variants=None),
 }
 FID = 'C02-uninit-declare'
 TRUSTED = [
@@ -70,9 +72,15 @@ def gen_stage1(rng, sz):
     jobs = []
     for m in range(sz['modules']):
         d1 = m % 4 == 0                     # 1-D only modules may read RIJ raw
-        spec = P.gen_module(rng, 'm%d' % m, d1=d1)
+        # every third module also divides integer-typed operands
+        spec = P.gen_module(rng, 'm%d' % m, d1=d1, idiv=m % 3 == 1)
         runs = [P.gen_data(rng, spec, 1 if d1 else 1 + (r % 3), r)
                 for r in range(sz['runs'])]
+        # two kernel parameter values per module: every compiled evaluator
+        # is re-used over several data sets (in place and rebound)
+        kas = rng.sample(range(1, 6), 2)
+        for r in runs:
+            r['kern']['ka'] = kas[(r['rid'] // 3) % 2]
         jobs.append(dict(jid='m%d' % m, spec=spec, runs=runs))
     return jobs
 
@@ -120,8 +128,25 @@ def plan_stage2(listing, sz, seed):
         jobs.append(dict(jid='i%d' % j, classes=isel[i:i + n], kernel=k0,
                          dims=kernels[k0], reps=sz['s2_reps'], seed=seed))
         j += 1
+    # the kernel probes: every kernel-dependent symbol and every kernel
+    # method against EVERY shipped kernel class x admissible dim, every tier
+    for k in knames:
+        jobs.append(dict(jid='p%d' % j, kernel=k, dims=kernels[k],
+                         reps=sz['kp_reps'], seed=seed,
+                         classes=[['c02_kprobe', 'KernelSymbols'],
+                                  ['c02_kprobe', 'KernelMethods']]))
+        j += 1
+    # shipped classes with one constructor option away from its default
+    allv = [c['key'] + [v] for c in listing['classes'] for v in c['variants']]
+    vsel = rot(allv, sz['s2_variants'], seed * (sz['s2_variants'] or 1))
+    for i in range(0, len(vsel), n):
+        jobs.append(dict(jid='v%d' % j, classes=vsel[i:i + n], kernel=k0,
+                         dims=kernels[k0], reps=1, seed=seed))
+        j += 1
     return jobs, dict(kernel_dependent=len(dep), kernel_independent=len(ind),
-                      kernels=kernels, kernels_used=ksel)
+                      kernels=kernels, kernels_used=ksel,
+                      option_variants=len(allv),
+                      option_variants_planned=len(vsel))
 
 
 # ---------------------------------------------------------------------------
@@ -210,13 +235,21 @@ def judge_probe(chk, verdicts, recs, jobs):
             raise MachineryError(
                 'reference executor differs from EvalData.tla on %s: %s' % (
                     v['id'], v['first']))
+        if v['known'] and all(chk.known(f) for f in v['known']):
+            for f in v['known']:
+                chk.known_hit(f)
+            continue
         if not v['symtab_ok']:
             chk.violation('precomputed symbol table / order differs from the '
                           'documented one (%s)' % v['id'], replay)
             continue
         if not v['impl_ok'] or not v['agree']:
-            chk.violation('compiled state differs from Eval on %s at %s' % (
-                v['id'], v['first']), replay)
+            chk.violation('compiled state differs from Eval on %s (%s) at %s'
+                          % (v['id'], v['route'], v['first']), replay)
+            continue
+        if not v['hist_ok']:
+            chk.violation('compute() after update_particle_arrays changed '
+                          'the replaced arrays (%s)' % v['id'], replay)
             continue
         n_ok += 1
     return n_ok
@@ -238,8 +271,8 @@ def judge_class(chk, verdicts, recs, jobs):
                 dict(cls=v['cls'], kernel=v['kernel'], dim=v['dim'],
                      properties=sorted(v['failed'])))
             continue
-        one = dict(job or {}, classes=[r['cls'].rsplit('.', 1)]
-                   if '.' in r['cls'] else (job or {}).get('classes', []))
+        one = dict(job or {}, classes=[r['ent']] if 'ent' in r
+                   else (job or {}).get('classes', []))
         what = 'class %s kernel %s dim %s: compiled differs from the ' \
             'reference executor on %s' % (v['cls'], v['kernel'], v['dim'],
                                           sorted(v['failed']))
@@ -284,6 +317,9 @@ def selftest(chk):
     c4 = json.loads(json.dumps(base[0]))
     c4['id'] = 'corrupt-symtab'
     c4['symtab']['HIJ']['arrs'] = ['d_h']
+    c5 = json.loads(json.dumps(base[0]))
+    c5['id'] = 'corrupt-hist'
+    c5['oldtouched'] = 3
     cls_ok = dict(id='cls-ok', kind='class', cls='X', kernel='K', dim=1,
                   arith=True, props=[dict(n='p', cnt=4, nbit=0, nan=0,
                                           err15=0, changed=2, undef=0,
@@ -298,7 +334,7 @@ def selftest(chk):
     cls_in['id'] = 'cls-within'
     cls_in['props'][0]['err15'] = 999
     f = os.path.join(chk.scratch, 'st_batch.ndjson')
-    write_lines(f, recs + [c1, c2, c3, c4, cls_ok, cls_bad, cls_tol, cls_in])
+    write_lines(f, recs + [c1, c2, c3, c4, c5, cls_ok, cls_bad, cls_tol, cls_in])
     verdicts, _ = validate('TraceEvalData', 'TraceEvalData.cfg', [f], 1)
     jid_of = dict((r['id'], r['jid']) for r in recs)
     by = {}
@@ -314,6 +350,11 @@ def selftest(chk):
          not by['corrupt-log'][0]['order_ok']),
         ('altered symbol table rejected',
          not by['corrupt-symtab'][0]['symtab_ok']),
+        ('write into the arrays replaced by update_particle_arrays rejected',
+         not by['corrupt-hist'][0]['hist_ok']
+         and not by['corrupt-hist'][0]['ok']),
+        ('both routes (in place / update_particle_arrays) exercised',
+         set(v['route'] for v in by['st-base']) == {'inplace', 'rebind'}),
         ('HIJ computed from d_h twice (driver process only) caught',
          any(not v['impl_ok'] and v['ref_ok'] for v in by['st-hij'])
          and all(not v['symtab_ok'] for v in by['st-hij'])),
@@ -436,7 +477,20 @@ def run_check(chk):
         raise MachineryError('stage 2: %d verdicts for %d records' % (
             len(v2), len(judged)))
     ok2 = judge_class(chk, v2, recs2, s2_jobs)
-    covered = sorted(set(r['cls'] for r in r2 if 'props' in r))
+    labels = sorted(set(r['cls'] for r in r2 if 'props' in r))
+    covered = sorted(set(l.split('[')[0] for l in labels
+                         if not l.startswith('c02_kprobe')))
+    variants_cov = [l for l in labels if '[' in l]
+    kp = {}
+    for v in v2:
+        if v['cls'].startswith('c02_kprobe'):
+            e = kp.setdefault(v['kernel'], dict(dims=[], runs=0, accepted=0,
+                                                bit_identical=0))
+            if v['dim'] not in e['dims']:
+                e['dims'].append(v['dim'])
+            e['runs'] += 1
+            e['accepted'] += int(v['ok'])
+            e['bit_identical'] += int(v['exact'])
     notcov = {}
     for r in r2:
         if 'notcovered' in r:
@@ -444,9 +498,10 @@ def run_check(chk):
         elif 'pyerror' in r and r['cls'] not in covered:
             notcov[r['cls']] = 'Python method raised on the random data: ' + \
                 r['pyerror']
-    for c in covered:
+    for c in labels:
         notcov.pop(c, None)
-    planned = set('.'.join(k) for j in s2_jobs for k in j['classes'])
+    planned = set('.'.join(k[:2]) for j in s2_jobs for k in j['classes']
+                  if k[0] != 'c02_kprobe')
     allc = set('.'.join(c['key']) for c in listing['classes'])
     # ---- design run --------------------------------------------------------
     design = dfut.result()
@@ -497,6 +552,9 @@ def run_check(chk):
                     pair_loops=sum(v['nloop'] for v in v1),
                     dims=sorted(set(r['dim'] for r in recs1.values()
                                     if 'dim' in r)),
+                    routes=dict((rt, sum(1 for r in recs1.values()
+                                         if r.get('route') == rt))
+                                for rt in ('inplace', 'rebind')),
                     symbols_read=sorted(k[4:] for k in feats
                                         if k.startswith('sym:')),
                     type_stride_written=combos, features=feats),
@@ -504,6 +562,10 @@ def run_check(chk):
                             accepted=len(v3)),
         stage2=dict(classes_found=len(allc), classes_planned=len(planned),
                     classes_covered=len(covered), runs=len(v2), accepted=ok2,
+                    option_variants_covered=variants_cov,
+                    kernel_probes=kp,
+                    routes=dict((rt, sum(1 for r in r2 if r.get('route') == rt))
+                                for rt in ('inplace', 'rebind')),
                     bit_identical_runs=exact2, plan=s2_plan,
                     covered=covered,
                     not_covered=notcov,
